@@ -38,6 +38,11 @@ func pass1Handlers(c *Ctx) (map[*ssa.Function]bool, *handlerMap) {
 			if g == nil || g.Pkg != sp || out[g] || g.Signature.Params().Len() == 0 {
 				return
 			}
+			// a callee that hands values back leaves the statement with its caller: it computes, the
+			// caller still has to emit or diagnose
+			if g.Signature.Results().Len() > 0 {
+				return
+			}
 			if namedTypeIs(g.Signature.Params().At(0).Type(), "internal/pass1", "Pass1") && g.Signature.Recv() == nil {
 				out[g] = true
 				work = append(work, g)
